@@ -1138,3 +1138,88 @@ class SerdeGen:
                 return ("E", i, ("L", [self.value(x, pn) for x in p]))
             return ("E", i, ("R", [self.value(x, p_none) for _, x in p]))
         raise ValueError(k)
+
+
+# ---------------------------------------------------------------------------------------------
+# the duplicate-key family (C07, C13): maps written from a LIST OF PAIRS in which a key repeats
+# (what `serializer.collect_map(pairs)` of an ordered multi-map, or a struct field colliding with a
+# `#[serde(flatten)]` map, hands to a serializer).  The harness serializes ("M", [(k, v), ...]) with
+# collect_map over the pairs in the given order, so a value of this family needs no new syntax.  Such
+# values are OUTSIDE has_type (colliding keys); what every route must do with them is keep the LAST
+# value of a repeated key (IndexMap::insert / BTreeMap::insert), and read back the last-wins map.
+# ---------------------------------------------------------------------------------------------
+def last_wins(v):
+    """the value a dup-key value denotes: in every map the last value of a repeated key wins"""
+    k = v[0]
+    if k in ("O", "W"):
+        return (k, last_wins(v[1]))
+    if k in ("L", "R"):
+        return (k, [last_wins(x) for x in v[1]])
+    if k == "E":
+        return ("E", v[1], last_wins(v[2]))
+    if k == "M":
+        order, best = [], {}
+        for a, b in v[1]:
+            ks = val_str(a)
+            if ks not in best:
+                order.append((ks, a))
+            best[ks] = last_wins(b)
+        return ("M", [(a, best[ks]) for ks, a in order])
+    return v
+
+
+def has_dup_keys(v):
+    k = v[0]
+    if k in ("O", "W"):
+        return has_dup_keys(v[1])
+    if k in ("L", "R"):
+        return any(has_dup_keys(x) for x in v[1])
+    if k == "E":
+        return has_dup_keys(v[2])
+    if k == "M":
+        ks = [val_str(a) for a, _ in v[1]]
+        return len(set(ks)) != len(ks) or any(has_dup_keys(b) for _, b in v[1])
+    return False
+
+
+def dup_key_case(rng):
+    """-> (ty, v): a supported type with one string-keyed / unit-variant-keyed map whose pair list repeats a key
+    with different values, at the root, in a struct field, in a sequence, in a newtype variant or nested in a map"""
+    r = rng
+    vt = r.choice([("int", "i64"), ("int", "u8"), ("s",), ("b",), ("f64",), ("L", ("int", "i32")),
+                   ("S", "P", [("x", ("int", "i32")), ("y", ("O", ("s",)))]),
+                   ("E", "En", [("U", "u", None), ("N", "n", ("int", "i64")), ("T", "t", [("b",), ("s",)])]),
+                   ("T", [("int", "i8"), ("s",)]), ("N", "Wrap", ("s",)), ("dt",)])
+    if r.random() < 0.75:
+        kt = ("s",)
+        pool = r.sample(["a", "b", "id", "k-1", "", "a b", "é", "true", "1", "z"], 4)
+        mk = lambda s: ("S", s)
+    else:
+        names = r.sample(VARIANT_POOL, 3)
+        kt = ("E", "K", [(n, "u", None) for n in names])
+        pool = [0, 1, 2]
+        mk = lambda i: ("E", i, ("U",))
+    mt = ("M", kt, vt)
+    g = SerdeGen(r, max_depth=3, allow_unsupported=False)
+    pattern = r.choice([[0, 0], [0, 1, 0], [0, 1, 1, 0], [1, 0, 2, 0], [0, 0, 0], [2, 1, 0, 1, 2], [0, 1, 2, 1]])
+    es, seen = [], {}
+    for i in pattern:
+        for _ in range(6):
+            x = g.value(vt, 0.0)
+            if seen.get(i) is None or val_str(x) != seen[i]:
+                break
+        seen[i] = val_str(x)
+        es.append((mk(pool[i]), x))
+    mv = ("M", es)
+    shape = r.randrange(6)
+    if shape == 0:
+        return mt, mv
+    if shape == 1:
+        return ("S", "S", [("a", ("int", "i32")), ("m", mt), ("z", ("s",))]), ("R", [("I", 1), mv, ("S", "end")])
+    if shape == 2:
+        return ("S", "S", [("l", ("L", mt))]), ("R", [("L", [mv, ("M", [(mk(pool[0]), g.value(vt, 0.0))])])])
+    if shape == 3:
+        return ("S", "S", [("e", ("E", "En2", [("U", "u", None), ("M", "n", mt)]))]), ("R", [("E", 1, mv)])
+    if shape == 4:
+        return ("M", ("s",), mt), ("M", [(("S", "outer"), mv), (("S", "other"), ("M", []))])
+    return ("S", "S", [("o", ("O", mt)), ("w", ("N", "W", mt))]), ("R", [("O", mv), ("W", mv)])
